@@ -491,6 +491,11 @@ def run(ck, facts, tier):
     c05.rule_branch_accounting(ck, facts)
     c12.rule_predicate_recursion(ck, facts)
     guards.run(ck, facts, "C03.guarded-index", ["mimium_lang", "state_tree", "mimium_scheduler", "mimium_audiodriver"])
+    from ..rules import errdrop, rewrite
+
+    rewrite.run(ck, facts, "C04.rewrite-complete", belief.rewriting_passes())
+
+    errdrop.run(ck, facts, "C03.error-drop")
     c03_unsafe.run(ck, facts, cg, tier)
     ck.not_decided("absence of index/overflow/division panics (compiler-inserted asserts are counted in the evidence only)")
     ck.not_decided("termination of user programs; 'dsp yields exactly the declared number of words' (run-time stack discipline)")
